@@ -57,7 +57,7 @@ def execute(cases_, tier, seed):
                                             wc.placed, expected="every oracle-valid instance deserialises",
                                             observed={"rejected": bad[:8], "ident": wc.ident},
                                             features={"shape": wc.placed.get("shape"), "ctx": wc.placed.get("ctx"), "id": wc.id,
-                                                      "shape_kind": (wc.placed.get("shape") or "").split("(")[0]},
+                                                      "shape_kind": (wc.placed.get("shape") or "").split("(")[0], **(wc.placed.get("tg") or {})},
                                             items=[b["instance"] for b in bad]))
     res.evaluations = res.transitions
     res.extra.update({"valid_instances": n_valid, "invalid_instances": n_invalid, "skipped": skipped,
